@@ -426,6 +426,8 @@ def _typing(ctx):
                               {'text': text, 'via_print': via_print})
 
 
+STRICT_OPS = ('+', '-', '*', '/') + tuple(rx.RELATIONAL)
+
 DIRECTED_MISSING = [
     (b'1+', (22,)), (b'1 AND', (22,)), (b'2^', (22,)), (b'3 MOD', (22,)), (b'1 <', (22,)), (b'-', (22,)), (b'NOT', (22,)),
     (b'1+2*', (22,)), (b'(1+2)*3-', (22,)), (b'1 OR 2 IMP', (22,)), (b'2*-', (22,)),
@@ -488,6 +490,9 @@ def _errors(ctx, spec, pool):
                 t = None
         if t is None:
             continue
+        # strict = whatever the regrouping, no complete sub-expression can raise a hard error before the gap is reached
+        strict = all(s_[0] in ('L', 'V') and s_[1] != '$' or s_[0] == 'U' and s_[1] in ('-', '+')
+                     or s_[0] == 'B' and s_[1] in STRICT_OPS for s_ in rx.subtrees(t))
         toks = rx.print_redundant(t, rng, 0.15) if rng.random() < 0.3 else rx.print_min(t)
         toks = list(toks)
         mode = rng.random()
@@ -530,6 +535,11 @@ def _errors(ctx, spec, pool):
                 continue
             res.case(b'mutant|' + text)
             allowed = (22,) if e.at_end else (22, 2)
+            if not strict and got[0] == 'err' and got[1] not in allowed:
+                # a complete sub-expression before the gap may legitimately fail first (e.g. NOT applied to a string
+                # after the regrouping, a logical operator on a product beyond 32767): only "some error" is demanded
+                res.count('mutant_other_error_before_gap')
+                continue
             if got[0] == 'err' and got[1] in allowed:
                 res.count('missing_operand_22_seen' if got[1] == 22 else 'missing_operand_syntax_error_2_seen')
                 if e.at_end:
